@@ -394,6 +394,7 @@ replay_file(const char *path)
 int
 drv_ref(int argc, char **argv)
 {
+        hx_data_patterns = 1; /* structured messages / keys for some seeds (also on replay) */
         const char *out = NULL, *variant = "sse_t1", *kinds = NULL, *keyvariant = NULL, *replay = NULL;
         int n = 40, dense = 0, nkeys = 24, nowin = 0;
         uint64_t seed = 1;
